@@ -18,10 +18,10 @@ func init() {
 		ID:    "C10",
 		Level: "exploration",
 		Rule: "case i: limit L in {1 KiB, 4 KiB, 100 KiB, 1 MiB} x direction (request / response) x size family (message bytes L-1, L, L+1, 2L, 10L, 100L (L<=100 KiB); " +
-			"compressible payloads with gzip ratios ~1:1 .. ~1000:1; many-empty-submessage messages whose JSON is far larger than their binary form; large error messages (error body, end-of-stream frame)) " +
+			"compressible payloads with gzip ratios ~1:1 .. ~1000:1; many-empty-submessage messages whose JSON is far larger than their binary form; large error messages (error body, end-of-stream frame, also compressed and inflating to 1000 L); frames or bodies that only ANNOUNCE a huge length; incompressible payloads sent as gzip) " +
 			"x client form x target protocol/codec/compression x declared or undeclared lengths. Each scenario runs twice, serially in a quiet process: a calibration run under a 1 GiB limit records every representation " +
 			"size actually observed (wire, decompressed, re-encoded, re-compressed; both legs), then the run under L. oracle: (a) all representations <= L => success with intact messages; (b) failure of a size-affected RPC => resource_exhausted; " +
-			"(c) always: largest pooled-buffer capacity seen by the pool hooks (Get/Put/Wrap) during the request <= 4L+64 KiB (TotalAlloc deltas are recorded as evidence only: the heap is shared with the harness). Self-calibrated boundaries: L = max representation (must pass) and max-1. " +
+			"(c) always: largest pooled-buffer capacity seen by the pool hooks (Get/Put/Wrap) during the request, and of every buffer handed out once the request is over, <= 4L+64 KiB (TotalAlloc deltas are recorded as evidence only: the heap is shared with the harness). Self-calibrated boundaries: L = max representation (must pass) and max-1. " +
 			"non-trivial = some representation within [L/2, 100L]; distinct by (L, family, direction, cell)",
 		Assume: []string{"serial execution: the pool hooks and MemStats deltas are attributed to the one request in flight", "constants 4L+64 KiB and 24x+4 MiB leave >=3x head-room over legitimate at-limit traffic (measured: 2-3x L)"},
 		Serial: true,
